@@ -315,6 +315,48 @@ func checkC15(c c15Case, ctx *vCtx) *vFailure {
 		}
 		ctx.Label("flagset:" + strings.Join(c.Flags, " "))
 	}
+	// the selecting reports (one food, one element, one element by food) under every presentation option: the option may
+	// change the layout, never which records are shown or their numbers (escape codes removed, rows read by value)
+	{
+		x := "x"
+		if len(c.S.Basics) > 0 {
+			x = c.S.Basics[0]
+		}
+		food := "."
+		if len(c.S.Recipes) > 0 {
+			food = vQuoteMeta(c.S.Recipes[0])
+		}
+		pres := [][]string{{"--use-old-reg-reporter"}, {"--internal-template-name", "left-aligned"}, {"--shorten"}, {"--no-totals"}, {"--totals-only"}, {"--no-color"},
+			{"--use-old-reg-reporter", "--shorten"}, {"--internal-template-name", "default"}}
+		sels := [][]string{{"-f", food}, {"-f", "."}, {"-s", x}, {"-s", x, "-g"}}
+		rows := func(sel []string, out string) string {
+			out = vStripAnsi(out)
+			switch {
+			case sel[0] == "-f":
+				return fmt.Sprint(vReadSingleFood(out))
+			case len(sel) == 3:
+				return fmt.Sprint(vReadValName(out))
+			}
+			return fmt.Sprint(vReadSingle(out, x))
+		}
+		for _, sel := range sels {
+			basis := rows(sel, run(nc, append([]string{"reg"}, sel...)...))
+			for pi, pr := range pres {
+				args := append(append([]string{"reg"}, pr...), sel...)
+				if pi%2 == 1 {
+					args = append(append([]string{"reg"}, sel...), pr...)
+				}
+				var g []string
+				if pi%3 == 0 {
+					g = nc
+				}
+				if got := rows(sel, run(g, args...)); got != basis {
+					return vFailf("%v shows other records or numbers than reg %v:\n%s\nversus\n%s", args, sel, vTrunc(got, 800), vTrunc(basis, 800))
+				}
+			}
+		}
+		ctx.Label("selection-x-presentation")
+	}
 	// summary
 	for d := range dates {
 		col := run(nil, "summary", d)
